@@ -337,9 +337,8 @@ func (r *Run) Cases(group string, n int, o Opts, fn func(c *Case)) {
 	}
 	if only := os.Getenv("VERIF_ONLY_CASE"); only != "" {
 		// replay of a single case: group:index
-		p := strings.SplitN(only, ":", 2)
-		if len(p) == 2 && p[0] == group {
-			i, _ := strconv.Atoi(p[1])
+		if k := strings.LastIndex(only, ":"); k > 0 && only[:k] == group { // group names may contain colons
+			i, _ := strconv.Atoi(only[k+1:])
 			r.runRange(group, i, i+1, 1, fn)
 		}
 		return
